@@ -361,47 +361,82 @@ class Scanner:
 
     # ------------------------------------------------------------------ entry objects
     def entry_rows(self) -> list[dict]:
-        ES._cache.clear()
+        """Rows for the entry classes AND, transitively, for every package class whose object an entry object builds in
+        `__init__` and keeps on `self` (a pass that owns a converter, a rule that owns a matcher): such an object lives as
+        long as its holder, so its own methods must assign before they read as well.  For held classes the entry is
+        `<public>`: the union over all public methods (whichever the holder, or a function it hands the object to, calls)."""
         world = ES.World(self.repo)
         for f in self.files:
             if f.startswith(("onnxscript/rewriter/", "onnxscript/optimizer/", "onnxscript/version_converter/", "onnxscript/_internal/")):
                 world.add_file(f)
-        rows = []
-        for f, cname, entry in ENTRY_CLASSES:
-            c = world.resolve(cname, f)
-            if c is None or c.module != f:
-                rows.append({"name": cname, "entry": entry, "missing": True, "consts": [], "earlyReads": ["<class not found>"], "mayWrite": []})
+        rows: list[dict] = []
+        done: set[str] = set()
+        todo: list[tuple[str | None, str, str, str | None]] = [(f, c, e, None) for f, c, e in ENTRY_CLASSES]
+        while todo:
+            f, cname, entry, holder = todo.pop(0)
+            if cname in done:
                 continue
-            owner, fn = world.find_method(c, entry)
-            if fn is None:
-                rows.append({"name": cname, "entry": entry, "missing": True, "consts": [], "earlyReads": ["<entry not found>"], "mayWrite": []})
+            c = world.resolve(cname, f) if f else (world.by_name.get(cname) or [None])[0]
+            if c is None or (f and c.module != f):
+                if holder is None:
+                    rows.append({"name": cname, "entry": entry, "missing": True, "consts": [], "earlyReads": ["<class not found>"], "mayWrite": [], "held": []})
                 continue
+            done.add(cname)
             chain = world.mro(c)
+            methods = sorted(set().union(*[set(k.methods) for k in chain]))
+            if entry != "<public>" and world.find_method(c, entry)[1] is None:
+                rows.append({"name": cname, "entry": entry, "missing": True, "consts": [], "earlyReads": ["<entry not found>"], "mayWrite": [], "held": []})
+                continue
+            ES._cache.clear()
             init_w, other_w = set(), set()
-            for m in sorted(set().union(*[set(k.methods) for k in chain])):
+            for m in methods:
                 o, mf = world.find_method(c, m)
-                s = ES.summarize(world, c, o, mf)
-                (init_w if m == "__init__" else other_w).update(s.may)
+                sm = ES.summarize(world, c, o, mf)
+                (init_w if m == "__init__" else other_w).update(sm.may)
             consts = init_w - other_w
+            entries = [entry] if entry != "<public>" else [m for m in methods if not m.startswith("_") or m in ("__call__",)]
+            early, may, must_all, dyn = set(), set(), None, False
             ES._cache.clear()
             ES.VISITED.clear()
-            s = ES.summarize(world, c, owner, fn)
+            for en in entries:
+                o, mf = world.find_method(c, en)
+                sm = ES.summarize(world, c, o, mf)
+                early |= set(sm.early_reads)
+                may |= set(sm.may)
+                must_all = set(sm.must_all) if must_all is None else (must_all & set(sm.must_all))
+                dyn = dyn or sm.dynamic
             reached = {m for (cn, m) in ES.VISITED if cn == c.name}
             helper = set()
-            for m in sorted(set().union(*[set(k.methods) for k in chain])):
+            for m in methods:
                 if m in reached or m == "__init__":
                     continue
                 o, mf = world.find_method(c, m)
                 hs = ES.summarize(world, c, o, mf)
-                # a helper another module calls while an operation is running: the entry's own assignments happened before
-                helper |= set(hs.early_reads) - consts - set(s.must_all)
+                helper |= set(hs.early_reads) - consts - (must_all or set())
+            # objects built in __init__ and kept on self
+            held = []
+            for k in chain:
+                init = k.methods.get("__init__")
+                if init is None:
+                    continue
+                for n in ast.walk(init):
+                    if isinstance(n, (ast.Assign, ast.AnnAssign)) and n.value is not None:
+                        ts = n.targets if isinstance(n, ast.Assign) else [n.target]
+                        # only fields that are never reassigned afterwards keep ONE object for the holder's lifetime
+                        if not any(ES.is_self_attr(t) and t.attr in consts for t in ts):
+                            continue
+                        for x in ast.walk(n.value):
+                            if isinstance(x, ast.Call):
+                                nm = x.func.id if isinstance(x.func, ast.Name) else (x.func.attr if isinstance(x.func, ast.Attribute) else None)
+                                if nm and nm in world.by_name and nm != cname:
+                                    held.append(nm)
+            held = sorted(set(held))
+            for h in held:
+                todo.append((None, h, "<public>", cname))
             rows.append({
-                "name": cname, "entry": entry, "missing": False,
-                "consts": sorted(consts),
-                "helperReads": sorted(helper),
-                "earlyReads": sorted(s.early_reads - consts),
-                "mayWrite": sorted(s.may),
-                "dynamic": bool(s.dynamic),
+                "name": cname, "entry": entry, "missing": False, "holder": holder,
+                "consts": sorted(consts), "helperReads": sorted(helper),
+                "earlyReads": sorted(early - consts), "mayWrite": sorted(may), "dynamic": bool(dyn), "held": held,
             })
         return rows
 
@@ -612,7 +647,7 @@ def emit_lean(d: dict) -> str:
         "  { name := " + lstr(r["name"]) + ", entry := " + lstr(r["entry"]) + f", missing := {str(r['missing']).lower()}"
         + f", dynamic := {str(bool(r.get('dynamic'))).lower()}"
         + ", consts := " + llist(r["consts"]) + ", earlyReads := " + llist(r["earlyReads"]) + ", helperReads := " + llist(r.get("helperReads", []))
-        + ", mayWrite := " + llist(r["mayWrite"]) + " }"
+        + ", mayWrite := " + llist(r["mayWrite"]) + ", held := " + llist(r.get("held", [])) + " }"
         for r in d["entryRows"]))
     out += ["]", "", "def setIterSites : List SetIterSite := ["]
     out.append(",\n".join(
